@@ -926,6 +926,7 @@ class HostConnectionPool(object):
         connections have been set, `callback` will be called with two
         arguments: this pool, and a list of any errors that occurred.
         """
+        self._keyspace = keyspace
         remaining_callbacks = set(self._connections)
         errors = []
 
@@ -942,7 +943,6 @@ class HostConnectionPool(object):
             if not remaining_callbacks:
                 callback(self, errors)
 
-        self._keyspace = keyspace
         for conn in self._connections:
             conn.set_keyspace_async(keyspace, connection_finished_setting_keyspace)
 
